@@ -112,9 +112,10 @@ def new_message(env, mod, i):
     return getattr(mod, env.name(i))()
 
 
-def fill(env, obj, t, value, skip=()):
+def fill(env, obj, t, value, skip=(), refill=False):
     """Populate composite `obj` of type t from the value tree (members whose
-    1-based index is in `skip` are not touched at all)."""
+    1-based index is in `skip` are not touched at all).  refill: `obj` already
+    holds another value - absent optionals are unset, arrays emptied first."""
     b = env.base(t)
     d = env.d(b["i"])
     if d["k"] == "union":
@@ -127,7 +128,7 @@ def fill(env, obj, t, value, skip=()):
         elif _is_enum(env, arm["t"]):
             setattr(obj, name, _enum_number(env, arm["t"], x))
         else:
-            fill(env, getattr(obj, name), arm["t"], x)
+            fill(env, getattr(obj, name), arm["t"], x, refill=refill)
         return
     for j, (m, y) in enumerate(zip(d["ms"], value[1]), 1):
         if j in skip:
@@ -146,9 +147,11 @@ def fill(env, obj, t, value, skip=()):
                 else:
                     setattr(obj, name, env.ename(env.base(t2)["i"], y[1]))
             else:
-                fill(env, getattr(obj, name), t2, y)
+                fill(env, getattr(obj, name), t2, y, refill=refill)
         elif f == "opt":
             if y is None:
+                if refill:
+                    setattr(obj, name, None)
                 continue
             if _is_scalar(env, t2):
                 setattr(obj, name, _num(env, t2, y))
@@ -156,9 +159,11 @@ def fill(env, obj, t, value, skip=()):
                 setattr(obj, name, _enum_number(env, t2, y))
             else:
                 setattr(obj, name, True)
-                fill(env, getattr(obj, name), t2, y)
+                fill(env, getattr(obj, name), t2, y, refill=refill)
         elif t2["k"] == "byte":
             if not y and f != "fixed":
+                if refill:
+                    setattr(obj, name, b"")
                 continue        # an empty bytes field is left at its default
             setattr(obj, name, bytes(e[0] for e in y))
         elif f == "fixed":
@@ -169,9 +174,11 @@ def fill(env, obj, t, value, skip=()):
                 elif _is_enum(env, t2):
                     arr[idx] = _enum_number(env, t2, e)
                 else:
-                    fill(env, arr[idx], t2, e)
+                    fill(env, arr[idx], t2, e, refill=refill)
         else:
             arr = getattr(obj, name)
+            if refill:
+                del arr[:]
             for e in y:
                 if _is_scalar(env, t2):
                     arr.append(_num(env, t2, e))
